@@ -26,6 +26,7 @@ ASSUMPTIONS = [
 _key = st.one_of(st.none(), st.sampled_from([1, 2, 0]), st.sampled_from([1.0, 2.5, 0.0]), st.integers(0, 1).map(lambda k: ['nan', k]),
                  st.sampled_from(['a', '1', '']), st.sampled_from([['dt', D0, 0], ['dt', D0 + 1, 0]]))
 _key_big = st.one_of(st.sampled_from([2 ** 53, 2 ** 53 + 1, 2.0 ** 53, 1]), st.none())      # ints that floats cannot tell apart
+_key_inf = st.one_of(st.sampled_from([['inf', 1], ['inf', -1], ['nan', 0], ['nan', 1], 1.0]), st.none())      # infinities are ordinary float keys, distinct from NaN
 _key_narrow = st.one_of(st.sampled_from([1, 1.0, 2]), st.integers(0, 1).map(lambda k: ['nan', k]), st.none())
 _val = st.one_of(st.none(), st.integers(0, 3), st.sampled_from([0.5, 1.0]), st.sampled_from(['u', 'v']), st.just(['nan', 2]))
 
@@ -58,7 +59,7 @@ def _case(draw, max_rows=7):
         nl, nr = draw(st.integers(1, 2)), draw(st.integers(9, 30))
     elif profile == 'long_left':
         nl, nr = draw(st.integers(9, 30)), draw(st.integers(1, 2))
-    keyst = draw(st.sampled_from([_key, _key, _key_narrow, _key_narrow, _key_big]))
+    keyst = draw(st.sampled_from([_key, _key, _key_narrow, _key_narrow, _key_big, _key_inf]))
     lnames = ['k%i' % (i + 1) for i in range(nk)]
     if kind in ('diffnames',):
         rnames = ['q%i' % (i + 1) for i in range(nk)]
